@@ -38,6 +38,8 @@ func init() {
 	operations["fs.norm"] = opFsNorm
 	operations["seq"] = opSeq
 	operations["seq.ops"] = opSeqOps
+	generators["C05"] = genList
+	operations["list"] = opList
 }
 
 func runOp(line string) (out string) {
